@@ -204,7 +204,7 @@ NoLeak(e) == \A i \in 1..Len(ExpectedNames(e)) :
 AllZero(x) == \A i \in 1..Len(x) : x[i] = 0
 \* plaintext(s) of the datagram just sent / injected, WITHOUT their own padding: a constant non-zero padding legitimately recurs in
 \* every message and is not "recent traffic"; what must not reappear is ciphertext and the scoped PDUs themselves
-Unpadded(x) == LET sp == DecodePlain(x) IN IF sp.c = Accept /\ sp.padLen <= Len(x) THEN SubSeq(x, 1, Len(x) - sp.padLen) ELSE x
+Unpadded(x) == LET sp == DecodePlain(x) IN IF sp.c <= NonMin /\ sp.padLen <= Len(x) THEN SubSeq(x, 1, Len(x) - sp.padLen) ELSE x
 DecryptOutputs(interp) == LET idx == {i \in 1..Len(interp) : interp[i].f = "decrypt"} IN
                           IF idx = {} THEN <<>> ELSE <<Unpadded(interp[CHOOSE i \in idx : TRUE].out)>>
 LastN(q, n) == IF Len(q) <= n THEN q ELSE SubSeq(q, Len(q) - n + 1, Len(q))
@@ -308,7 +308,7 @@ AbsOf(s, item) ==
   LET b == item.b  interp == item.interp
       d == Decode(s.ver, b) IN
   IF d.c = Reject THEN [kind |-> "garbage"]
-  ELSE IF d.c # Accept THEN [kind |-> "unjudged"]
+  ELSE IF d.c > NonMin THEN [kind |-> "unjudged"]          \* (a receiver takes non-minimal long-form lengths like minimal ones)
   ELSE IF s.ver # "v3" THEN
     LET pdu == d.m.pdu IN
     [kind |-> "msg", verOk |-> TRUE, credOk |-> d.m.community = s.community, engineOk |-> TRUE,
@@ -320,8 +320,8 @@ AbsOf(s, item) ==
         plain == IF m.enc /\ HasPriv(s) THEN PlainOf(s, m, interp) ELSE Missing
         sp == IF ~m.enc THEN [c |-> Accept, scoped |-> m.scoped]
               ELSE IF plain = Missing THEN Rej("undecryptable") ELSE DecodePlain(plain)
-        encKind == IF ~m.enc THEN "plain" ELSE IF sp.c = Accept THEN "ok" ELSE IF sp.c = Reject THEN "bad" ELSE "unjudged"
-        pdu == IF sp.c = Accept THEN sp.scoped.pdu ELSE [ptype |-> -1, reqid |-> Zero, vbs |-> <<>>]
+        encKind == IF ~m.enc THEN "plain" ELSE IF sp.c <= NonMin THEN "ok" ELSE IF sp.c = Reject THEN "bad" ELSE "unjudged"
+        pdu == IF sp.c <= NonMin THEN sp.scoped.pdu ELSE [ptype |-> -1, reqid |-> Zero, vbs |-> <<>>]
         macv == IF m.usm.auth = <<>> THEN "absent"
                 ELSE IF HasAuth(s) /\ Len(m.usm.auth) = 12
                         /\ m.usm.auth = IHmac(interp, s.auth, AuthKey(s, interp, IF s.engine = <<>> THEN m.usm.engine ELSE s.engine), ZeroAuth(b, m.usm))
